@@ -1,13 +1,44 @@
-/- C12 — first layer; see DESIGN.md §5 -/
+/- C12 — results depend only on the supplied data source; see DESIGN.md §5 -/
 import UBidi.Model.Reorder
 import UBidi.Spec.UAX9
 import UBidi.Spec.Reorder
+import UBidi.Lemmas.C12
 namespace UBidi.Props.C12
-open UBidi
+open UBidi UBidi.Lemmas.C12
 
-/-- the analysis of the empty text is empty and does not fail -/
-theorem empty_text (ds : DataSource) (d : Option Nat) :
-    (bidiInfo ds (Text.ofScalars []) d).levels = [] ∧ (bidiInfo ds (Text.ofScalars []) d).err = none := by
-  constructor <;> rfl
+/-- the analysis consults the data source only through the class and bracket values of the characters of the
+    text: two sources that agree there give the same `BidiInfo`, `ParagraphBidiInfo`, base direction and
+    `InitialInfo` (all fields, including the panic field).  In particular nothing global (the built-in
+    tables) is consulted when a source is supplied. -/
+theorem C12_depends_only_on_ds (ds ds' : DataSource) (t : Text) (d : Option Nat)
+    (h : ∀ s ∈ t.segs, ds.cls s.cp = ds'.cls s.cp ∧ ds.brk s.cp = ds'.brk s.cp) :
+    bidiInfo ds t d = bidiInfo ds' t d ∧ paragraphBidiInfo ds t d = paragraphBidiInfo ds' t d ∧
+    (∀ full, baseDirection ds t full = baseDirection ds' t full) ∧ (∀ split, computeInitialInfo ds t d split = computeInitialInfo ds' t d split) := by
+  have hc : ∀ s ∈ t.segs, ds.cls s.cp = ds'.cls s.cp := fun s hs => (h s hs).1
+  have hb : ∀ s ∈ t.segs, ds.brk s.cp = ds'.brk s.cp := fun s hs => (h s hs).2
+  have hsub : ∀ a b, ∀ s ∈ (t.subrange a b).segs, ds.brk s.cp = ds'.brk s.cp := by
+    intro a b s hs
+    obtain ⟨s', hs', e⟩ := subrange_mem t a b s hs
+    rw [← e]; exact hb s' hs'
+  have hii := fun split => cii_congr ds ds' t d split hc
+  refine ⟨?_, ?_, fun full => baseDirection_congr ds ds' t full hc, hii⟩
+  · unfold bidiInfo
+    simp only [hii true, fun pl p i a b ocs => paraLevels_congr ds ds' pl p i (t.subrange a b) ocs (hsub a b)]
+  · unfold paragraphBidiInfo
+    simp only [hii false, paraLevels_congr ds ds' _ _ _ t _ hb]
+
+/- non-vacuity: the built-in source and a source that calls every supplementary-plane character R and knows no
+   bracket above U+00FF are different sources, and agree on the characters of "aא(1)" -/
+example :
+    let ds' : DataSource := { cls := fun c => if c < 0x10000 then bidiClass c else .R,
+                              brk := fun c => if c < 0x100 then bracket c else none }
+    let t := Text.ofScalars [0x61, 0x5D0, 0x28, 0x31, 0x29]
+    (∀ s ∈ t.segs, hardcoded.cls s.cp = ds'.cls s.cp ∧ hardcoded.brk s.cp = ds'.brk s.cp) ∧
+    hardcoded.cls 0x10000 ≠ ds'.cls 0x10000 ∧ hardcoded.brk 0x2329 ≠ ds'.brk 0x2329 := by
+  decide +kernel
+
+/-- the built-in source passed explicitly is the convenience constructor (definitional in the Model:
+    `BidiInfo::new` is `new_with_data_source(&HardcodedBidiData, …)`; the harness compares the two Rust entry points) -/
+theorem C12_builtin_explicit (t d) : bidiInfo hardcoded t d = bidiInfo { cls := bidiClass, brk := bracket } t d := rfl
 
 end UBidi.Props.C12
